@@ -54,6 +54,7 @@ def url_base(f, pv, op):
 def run(ck, tier):
     ck.rule("R-C09-publish", "every handler that replaces or removes a document's state publishes afterwards for the same URL on every path (did_open/did_change/did_save/HarperIgnoreLint/did_change_configuration: publish_diagnostics(url); did_close/did_change_watched_files/shutdown: an empty PublishDiagnostics); publish_diagnostics computes from doc_state, never from a cached list")
     ck.rule("R-C09-source", "who-may-call: update_document_from_file (re-reads the file from disk) is called only from did_save; every other refresh must use the client's buffer text")
+    ck.rule("R-C09-close", "a closed document stays closed: a live DocumentState can only be created with the language id a didOpen supplied - the state-creating closure of update_document takes `language_id` from the handler parameter (map/to_string only), and every caller other than did_open passes None (or hands on its own parameter); a state without language id is removed again")
     ck.rule("R-C09-order", "in update_document the only await point between handler entry and the doc_state store is the doc_state lock itself (tower-lsp runs up to 4 handlers concurrently; tokio's Mutex is FIFO), or the store is guarded by the notification's version")
     ck.not_decided += ["that the published diagnostics equal those of the newest text (needs execution)", "client-side behaviour"]
     ck.assumptions += ["tower-lsp 0.20 polls up to four handlers concurrently in arrival order (buffer_unordered(4)); tokio::sync::Mutex grants the lock in FIFO order"]
@@ -61,6 +62,7 @@ def run(ck, tier):
     _publish(ck, p)
     _source(ck, p)
     _order(ck, p)
+    _close(ck, p)
 
 
 def _publish(ck, p):
@@ -403,3 +405,50 @@ def _order(ck, p):
         polls = [(bi, t) for bi, t in h.calls() if def_of(t).endswith("future::Future::poll")]
         early = [bi for bi, t in polls if ups and not hc.dominates(ups[0][0], bi)]
         ck.decide(rule, "Backend::%s:entry" % name, not early, h.span, "no await point before update_document is entered: %s" % (not early))
+
+
+def _close(ck, p):
+    rule = "R-C09-close"
+    c = p.fns.get("harper_ls::backend::{impl#0}::update_document::{closure#0}::{closure#0}")
+    if not ck.anchor(rule, "Backend::update_document:state-creating closure", c):
+        return
+    ck.saw(c)
+    pv = Prov(c)
+    agg = [sx for b in c.blocks for sx in b["s"] if sx["k"] == "assign" and sx["rv"]["k"] == "agg" and sx["rv"].get("name", "").endswith("DocumentState")]
+    if len(agg) != 1 or "language_id" not in (agg[0]["rv"].get("fields") or []):
+        ck.refuted(rule, "anchor-missing:DocumentState-literal", c.span, "the DocumentState literal with a language_id field was not found in the or_insert_with closure")
+        return
+    fields = dict(zip(agg[0]["rv"]["fields"], agg[0]["rv"]["ops"]))
+    roots = arg_roots(c, pv, fields["language_id"])
+    calls = sorted({last(norm(o[3] or o[2] or "")) for o in roots if o[0] == "call"})
+    ups = [o for o in roots if o[0] in ("upvar", "arg", "field")]
+    other = [n for n in calls if n not in ("map", "to_string", "to_owned", "into", "from", "clone", "cloned", "copied", "as_deref", "as_ref", "deref")]
+    ok = not other and bool(ups)
+    ck.decide(rule, "update_document:created-language-id", ok, c.loc(agg[0]["ln"]),
+              "the language id of a newly created state comes from the handler parameter through %s only: %s%s" % (calls, ok, "" if ok else " - %s can supply a language id that no didOpen gave, so a handler that runs after didClose (a parked didChange/didSave, a command naming the closed file) re-creates a live state and publishes diagnostics for a closed document" % other))
+    # who passes a language id?
+    bad = []
+    n = 0
+    for f in p.fns.values():
+        if not f.name.startswith("harper_ls::backend::"):
+            continue
+        fpv = None
+        for bi, t in f.calls():
+            i = inst_of(t)
+            if not (i.endswith("::update_document") or i.endswith("::update_document_from_file")):
+                continue
+            n += 1
+            fpv = fpv or Prov(f)
+            a = t["args"][-1]
+            if "::did_open::" in f.name:
+                continue
+            is_none = False
+            pl = place_of(a)
+            if pl and len(pl) == 1:
+                ds = [x for (b2, si, k, x) in fpv.defs.get(pl[0], []) if k == "assign"]
+                is_none = len(ds) == 1 and ds[0]["rv"]["k"] == "agg" and ds[0]["rv"].get("vname") == "None"
+            own_param = f.name.endswith("::update_document_from_file::{closure#0}") and any(o[0] in ("arg", "upvar", "field") for o in flatten(fpv.trace_operand(a)))
+            if not (is_none or own_param):
+                bad.append((keyname(p, f), f.loc(t["ln"])))
+    ck.floor(rule, "callers of update_document / update_document_from_file", n, 5)
+    ck.decide(rule, "update_document:who-supplies-language-id", not bad, "", "every caller other than did_open passes None or hands on its own parameter: %s%s" % (not bad, "" if not bad else " (offending: %s)" % bad))
